@@ -552,7 +552,7 @@ macro_rules! move_window_contract {
 }
 
 //@ family: move_window_contract
-//@ props: C05 C17
+//@ props: C05
 //@ tier: quick
 //@ timeout: 900
 //@ functions: cpc::sketch::CpcSketch::move_window
@@ -631,7 +631,7 @@ macro_rules! window_move_trigger {
 }
 
 //@ family: window_move_trigger
-//@ props: C05 C17
+//@ props: C05
 //@ tier: quick
 //@ timeout: 900
 //@ functions: cpc::sketch::CpcSketch::row_col_update
